@@ -147,7 +147,35 @@ def c20(tier):
 TABLE = {"C01": c01, "C02": c02, "C03": c03, "C04": c04, "C05": c05, "C06": c06, "C08": c08, "C09": c09, "C10": c10, "C11": c11, "C19": c19, "C20": c20}
 
 # per-property overrides for MANIFEST fields (category, text, note, technique, design_ref)
-INFO = {}
+_TB = ("Trusted: TLC and the bounds of the MC configs; the harness' abstraction functions (independent RFC 6455 codec and RFC 7692 inflate, "
+       "payload identity by deterministic payload streams, error classification, arrival annotation) and its scripted transport. ")
+INFO = {
+    "C01": dict(note=_TB + "Round trip = two validated traces composed: the writer trace attributes every wire frame to bytes the application wrote; "
+                "the reader trace (same wire bytes re-chunked into a real peer connection) attributes every delivered byte to the wire. Payload sizes up to 3*65536+5."),
+    "C02": dict(note=_TB + "'Cryptographic random source' is established as identity of the package's mask source with crypto/rand.Reader at init plus "
+                "freshness of every key as a non-overlapping, forward-moving window of an installed source; not by statistics. The repository's own test "
+                "suite is additionally run under a wire tap (hook verifWire) and every connection's output validated against the wire grammar."),
+    "C06": dict(note=_TB + "The memory clause is an allocation measurement (TotalAlloc around library calls, bound 8 x bytes received + 4 MiB) on frames that "
+                "declare 2^28, 2^63-1 or top-bit lengths while a few bytes are sent. The model config with the as-coded 'per_call' policy must violate the invariant (sensitivity self-test)."),
+    "C07": dict(category="model_checking",
+                text="Bounded-exhaustive enumeration generated from the TLA+ grammars, with Panic / Hang / AllocExcess monitors for which no specification action exists: "
+                     "frame level = the C04 header alphabet and the C05 truncation space plus raw garbage streams; handshake level = server replies and proxy CONNECT replies "
+                     "(status-line forms x codes x header blocks, cut at every byte) and all header values up to length 5 over an 11-class alphabet for the seven headers named in the property. "
+                     "It is not coverage-guided fuzzing over all byte strings.",
+                note=_TB + "Only the stated class alphabets and length bounds are explored; the documented panic at the 1000th read of a failed connection is the modelled exception (PanicAllowed)."),
+    "C09": dict(note=_TB + "Interleavings: the lock protocol model is checked exhaustively against the monitor (all interleavings of the modelled threads); on the real code a sample of "
+                "TLC-simulated schedules is replayed through the verif gates and free runs are validated; a rejection is about the observed order. Goroutine attribution by goroutine id."),
+    "C10": dict(category="model_checking",
+                note=_TB + "Fault positions: a dry run counts the write-side transport operations of each program, then the program is run once per operation index and fault kind "
+                "(error, timeout, short write). Deadlines are identified by value against the deadlines the driver set."),
+    "C11": dict(note=_TB + "Data-race freedom is OBSERVED by the Go race detector on replayed schedules, free runs and concurrent shared-pool / shared-PreparedMessage runs; it is not proved. "
+                "Atomicity, ordering and bounded waiting are decided by TLC (exhaustive lock-protocol model incl. a liveness property under fairness of the control callers only) and by the monitor on recorded executions. "
+                "Timeliness: a WriteControl counts as late only beyond its deadline + 5 s."),
+    "C19": dict(note=_TB + "The compression level in force is checked when the compressed bytes are attributable (they equal what compress/flate emits at that level for one write of the whole message); "
+                "concurrent sharing is run under the race detector."),
+    "C20": dict(note=_TB + "Buffer identity through reflection on the pooled value; released buffers are poisoned and checked on the next Get and at the end (TOUCHED); "
+                "multi-connection programs are interleavings made by the concretiser; concurrent sharing runs under the race detector."),
+}
 # reasons for properties that are not claimed
 NA = {}
 
